@@ -285,24 +285,17 @@ func checkC16(c *Ctx) {
 		value := c.mustField("C16-MEMO", "SexpLazyArg", "Value")
 		if forced != nil && value != nil {
 			memo := 0
+			events := c.lazyMemoEvents(force)
 			for _, r := range returnsOf(force) {
-				if !isNilConst(r.Results[1]) {
+				if !nilErrorValue(r.Results[1]) {
 					continue
 				}
 				b := r.Block()
 				storesForced, storesValue := false, false
-				for _, in := range b.Instrs {
-					if st, ok := in.(*ssa.Store); ok {
-						if fa, ok := st.Addr.(*ssa.FieldAddr); ok {
-							if faField(fa) == forced {
-								if k, ok := st.Val.(*ssa.Const); ok && k.Value != nil && k.Value.String() == "true" {
-									storesForced = true
-								}
-							}
-							if faField(fa) == value {
-								storesValue = true
-							}
-						}
+				for _, ev := range events {
+					if ev.in.Block() == b {
+						storesForced = storesForced || ev.forced
+						storesValue = storesValue || ev.storesVal
 					}
 				}
 				if !storesForced && !storesValue {
@@ -413,30 +406,23 @@ func (c *Ctx) checkForcedOnlyOnSuccess(rule string) {
 		c.undecided(rule, "SexpLazyArg.Force", "marked forced only on success", token.NoPos, "Force / Forced not found")
 		return
 	}
-	eachInstr(force, func(b *ssa.BasicBlock, i int, in ssa.Instruction) {
-		st, ok := in.(*ssa.Store)
-		if !ok {
-			return
+	for _, ev := range c.lazyMemoEvents(force) {
+		if !ev.forced {
+			continue
 		}
-		fa, ok := st.Addr.(*ssa.FieldAddr)
-		if !ok || faField(fa) != forced {
-			return
-		}
-		if k, ok := st.Val.(*ssa.Const); !ok || k.Value == nil || k.Value.String() != "true" {
-			return
-		}
+		b := ev.in.Block()
 		okOnly := true
 		reach := reachableAvoiding(b, func(*ssa.BasicBlock) bool { return false })
 		reach[b] = true
 		for _, r := range returnsOf(force) {
-			if reach[r.Block()] && len(r.Results) == 2 && !isNilConst(r.Results[1]) {
+			if reach[r.Block()] && len(r.Results) == 2 && !nilErrorValue(r.Results[1]) {
 				okOnly = false
 			}
 		}
-		c.check(okOnly, rule, "SexpLazyArg.Force", "marked forced only on success", st.Pos(),
+		c.check(okOnly, rule, "SexpLazyArg.Force", "marked forced only on success", ev.in.Pos(),
 			"every return that follows the store of the forced flag carries a nil error",
 			"the promise is marked forced on a path that can still return an error: a failed force is memoised as a value, so forcing the same promise again succeeds silently instead of raising the error again or re-evaluating")
-	})
+	}
 }
 
 // checkRegisteredBeforeBody: a function is known to the compiler before its own body is compiled.
@@ -647,34 +633,29 @@ func (c *Ctx) checkArgsReadAtCall(rule string) {
 	}
 	// (b)
 	okB, nStore := true, 0
-	eachInstr(force, func(b *ssa.BasicBlock, i int, in ssa.Instruction) {
-		st, ok := in.(*ssa.Store)
-		if !ok {
-			return
+	for _, ev := range c.lazyMemoEvents(force) {
+		if !ev.storesVal || ev.val == nil {
+			continue
 		}
-		fa, ok := st.Addr.(*ssa.FieldAddr)
-		if !ok || faField(fa) != valF {
-			return
+		// records of a computed result (not the nil/empty short cuts)
+		if k, isConst := ev.val.(*ssa.Const); isConst && k.Value == nil {
+			continue
 		}
-		// stores of a computed result (not the nil/empty short cuts)
-		if k, isConst := st.Val.(*ssa.Const); isConst && k.Value == nil {
-			return
-		}
-		sv := st.Val
+		sv := ev.val
 		if mi, ok := sv.(*ssa.MakeInterface); ok {
 			sv = mi.X
 		}
 		if ld, isLoad := sv.(*ssa.UnOp); isLoad {
 			if _, isGlobal := ld.X.(*ssa.Global); isGlobal {
-				return // lazy.Value = SexpNull
+				continue // lazy.Value = SexpNull
 			}
 		}
 		nStore++
 		// (the result is a phi of the value before and after the read; the side that skipped the read returns the error)
-		if !throughRV(st.Val) {
+		if !throughRV(ev.val) {
 			okB = false
 		}
-	})
+	}
 	c.check(nStore > 0 && okB, rule, "SexpLazyArg.Force", "forced value read in the scopes of the call", force.Pos(),
 		"the value memoised by Force has passed through RValue", "Force memoises what the argument expression evaluated to as it is: for a dot-symbol argument that is the symbol itself, which is then dereferenced wherever it is consumed, in the receiver's scopes")
 }
@@ -764,4 +745,114 @@ func directCallees(f *ssa.Function) []*ssa.Function {
 		}
 	})
 	return out
+}
+
+
+// memoEvent: a place in Force (or wherever) where the promise records its result: a direct store
+// into lazy.Value / lazy.Forced, or a call of a small method of the promise that does both.
+type memoEvent struct {
+	in        ssa.Instruction
+	val       ssa.Value // the value recorded (nil when only the flag is stored)
+	forced    bool      // stores Forced = true
+	storesVal bool
+}
+
+// memoHelperParam: g is a method of the promise that stores Forced = true and Value = one of its
+// parameters, and returns a nil error on every path; it reports the index of that parameter.
+func (c *Ctx) memoHelperParam(g *ssa.Function) (int, bool) {
+	forced := c.field("SexpLazyArg", "Forced")
+	value := c.field("SexpLazyArg", "Value")
+	lazyT := c.named("SexpLazyArg")
+	if g == nil || forced == nil || value == nil || lazyT == nil || len(g.Blocks) == 0 || !isMethodOf(g, lazyT) || len(g.Blocks) > 3 {
+		return 0, false
+	}
+	idx, setsForced := -1, false
+	eachInstr(g, func(b *ssa.BasicBlock, i int, in ssa.Instruction) {
+		st, ok := in.(*ssa.Store)
+		if !ok {
+			return
+		}
+		fa, ok := st.Addr.(*ssa.FieldAddr)
+		if !ok || fa.X != ssa.Value(g.Params[0]) {
+			return
+		}
+		switch faField(fa) {
+		case forced:
+			if k, ok := st.Val.(*ssa.Const); ok && k.Value != nil && k.Value.String() == "true" {
+				setsForced = true
+			}
+		case value:
+			for pi, p := range g.Params {
+				if st.Val == ssa.Value(p) {
+					idx = pi
+				}
+			}
+		}
+	})
+	if idx < 0 || !setsForced {
+		return 0, false
+	}
+	if ei := errResultIndex(g.Signature); ei >= 0 {
+		for _, r := range returnsOf(g) {
+			if !isNilConst(r.Results[ei]) {
+				return 0, false
+			}
+		}
+	}
+	return idx, true
+}
+
+func (c *Ctx) lazyMemoEvents(f *ssa.Function) []memoEvent {
+	forced := c.field("SexpLazyArg", "Forced")
+	value := c.field("SexpLazyArg", "Value")
+	var out []memoEvent
+	eachInstr(f, func(b *ssa.BasicBlock, i int, in ssa.Instruction) {
+		switch x := in.(type) {
+		case *ssa.Store:
+			fa, ok := x.Addr.(*ssa.FieldAddr)
+			if !ok {
+				return
+			}
+			switch faField(fa) {
+			case forced:
+				if k, ok := x.Val.(*ssa.Const); ok && k.Value != nil && k.Value.String() == "true" {
+					out = append(out, memoEvent{in: in, forced: true})
+				}
+			case value:
+				if value != nil {
+					out = append(out, memoEvent{in: in, val: x.Val, storesVal: true})
+				}
+			}
+		case *ssa.Call:
+			if pi, ok := c.memoHelperParam(x.Call.StaticCallee()); ok && pi < len(x.Call.Args) {
+				out = append(out, memoEvent{in: in, val: x.Call.Args[pi], forced: true, storesVal: true})
+			}
+		}
+	})
+	return out
+}
+
+// nilErrorValue: v is the nil constant, or the error result of a call whose callee returns a nil error on every path.
+func nilErrorValue(v ssa.Value) bool {
+	if isNilConst(v) {
+		return true
+	}
+	ex, ok := v.(*ssa.Extract)
+	if !ok {
+		return false
+	}
+	call, ok := ex.Tuple.(*ssa.Call)
+	if !ok {
+		return false
+	}
+	g := call.Call.StaticCallee()
+	if g == nil || len(g.Blocks) == 0 || errResultIndex(g.Signature) != ex.Index {
+		return false
+	}
+	for _, r := range returnsOf(g) {
+		if !isNilConst(r.Results[ex.Index]) {
+			return false
+		}
+	}
+	return true
 }
